@@ -8,6 +8,8 @@ typedef long time_t;                 // LP64
 typedef unsigned short uint16_t;
 typedef int int32_t;
 typedef unsigned long size_t;
+typedef long int64_t;
+typedef unsigned long uint64_t;
 extern "C" void *memset(void *, int, size_t);              // CBMC library model
 #define assert(EX) __CPROVER_assert((EX), "assert(" #EX ")")   // squid's assert() aborts; here a proof obligation
 #endif
@@ -41,13 +43,15 @@ public:
     bool minFreshSet, maxAgeSet, maxStaleSet, staleIfErrorSet, immutable;
     int32_t minFreshV, maxAgeV, maxStaleV, staleIfErrorV;
 };
-class HttpReply { public: HttpHdrCc *cache_control; };
+class HttpReply { public: HttpHdrCc *cache_control; int64_t content_length; };   // src/http/Message.h: content_length (refreshIsCachable reads it)
 class MemObject
 {
 public:
     const char *storeId() const { return id; }
+    const HttpReply &baseReply() const { return *reply_; }      // real one-liner (the stored reply, before any 304 update)
     const char *id;
-    HttpReply rep;
+    HttpReply rep;        // freshestReply()
+    HttpReply *reply_;    // real: HttpReplyPointer; baseReply(): only content_length is read (by refreshIsCachable)
 };
 class RequestFlags
 {
@@ -80,13 +84,25 @@ public:
     time_t lastModified_;
 };
 
-// src/RefreshPattern.h: the limits refreshStaleness() reads
+// src/base/RegexPattern.h as used by refreshLimits()/refreshFirstDotRule(): whether the compiled regex matches a URL and whether its
+// text is "." are symbolic inputs per rule (regexec() and the pattern text are outside the kernel)
+class RegexPattern
+{
+public:
+    bool isDot() const { return dot; }
+    bool match(const char *) const { return matches; }
+    bool matches, dot;
+};
+
+// src/RefreshPattern.h: the limits refreshStaleness() reads; the whole scalar state of the real class
 class RefreshPattern
 {
 public:
+    const RegexPattern &regex() const { assert(regex_); return *regex_; }   // src/refresh.cc RefreshPattern::regex() (restated; gen.py checks)
     time_t min;
     double pct;
     time_t max;
+    RefreshPattern *next;
     struct {
         bool refresh_ims;
         bool store_stale;
@@ -98,6 +114,11 @@ public:
         bool ignore_private;
     } flags;
     int max_stale;
+    mutable struct stats_ {
+        uint64_t matchTests;
+        uint64_t matchCount;
+    } stats;
+    RegexPattern *regex_;          // real: std::unique_ptr<RegexPattern>
 };
 
 // refresh.cc file statics and the two rule look-ups (ASSUMED: regex matching over Config.Refresh is outside the kernel)
@@ -107,11 +128,16 @@ static const RefreshPattern *g_dot;          // what refreshFirstDotRule() answe
 static const RefreshPattern *refreshLimits(const char *) { return g_matched; }
 static const RefreshPattern *refreshFirstDotRule() { return g_dot; }
 struct SquidConfigOnOff { int refresh_all_ims; int reload_into_ims; };
-struct SquidConfigStub { SquidConfigOnOff onoff; time_t maxStale; };
+struct SquidConfigStub { SquidConfigOnOff onoff; time_t maxStale; time_t minimum_expiry_time; RefreshPattern *Refresh; };
 static SquidConfigStub Config;
 static time_t squid_curtime;
 
 #include "stale_flags.inc"     // REAL: typedef struct { bool expires; bool min; bool lmfactor; bool max; } stale_flags;
 #include "codes_enum.inc"      // REAL: enum { FRESH_REQUEST_MAX_STALE_ALL = 100, ..., STALE_DEFAULT = 299 };
+#if defined(T_CACHABLE) || defined(RS_NATIVE)
+#define USE_HTCP 1             // as in include/autoconf.h (checked by gen.py)
+#define USE_CACHE_DIGESTS 0    // as in include/autoconf.h (checked by gen.py)
+#include "counts.inc"          // REAL: refreshCountsEnum (rcHTTP .. rcStore, rcCount) and static struct RefreshCounts {...} refreshCounts[rcCount];
+#endif
 
 #endif
